@@ -8,7 +8,7 @@
     expansion of every corpus declaration on every run; the theorems say what a successful check
     means for all raw values, all arguments, all in-range indices and both build profiles
     ([c] ranges over overflow-checks on/off). *)
-From BB Require Import Bits Expr Sym Spec Validate Parse ParseCorrect Enum Prog History Builder Surface DebugFmt.
+From BB Require Import Bits Expr Sym Spec Validate Parse ParseCorrect Enum Prog History Builder Surface DebugFmt Gen GenCorrect.
 Open Scope N_scope.
 
 (** ** C01 — getter returns exactly the declared bits *)
@@ -318,3 +318,47 @@ Theorem C19_text_is_a_function_of_the_getters : forall env k d x y,
   (forall f, In f (d_fields d) -> spec_get f 0 x = spec_get f 0 y) ->
   debug_tree env (S k) d x = debug_tree env (S k) d y.
 Proof. exact C19_values_from_getters. Qed.
+
+(** ** The generator model (Gen.v, a term-for-term mirror of codegen.rs): ALL declarations *)
+
+(** C01/C03/C04/C05/C08: every getter, every valid layout, every raw value, both profiles *)
+Theorem C01_generator_model_every_getter : forall c W f i raw,
+  base_ok W = true -> valid_field W f = true -> nodup_bits (ranges f) = true -> count f < 2 ^ 64 ->
+  i < count f -> raw < 2 ^ W ->
+  eval c (mk_env W raw i (VBool false)) (gen_getter (storage W) f) = Ok (present (f_ty f) (spec_get f i raw)).
+Proof. exact model_getter_correct. Qed.
+
+(** C02/C03/C04/C05/C08/C11: every with_/set_ body *)
+Theorem C02_generator_model_every_setter : forall c W f i raw v,
+  base_ok W = true -> valid_field W f = true -> nodup_bits (ranges f) = true -> count f < 2 ^ 64 ->
+  i < count f -> raw < 2 ^ W -> v < 2 ^ ty_width (f_ty f) ->
+  eval c (mk_env W raw i (present (f_ty f) v)) (gen_setter (storage W) f)
+  = Ok (VInt (TU (storage W)) (spec_set f i v raw))
+  /\ spec_set f i v raw < 2 ^ W.
+Proof. exact model_setter_correct. Qed.
+
+Theorem C03_generator_model_out_of_range_index_panics : forall c S f ρ k,
+  f_count f = Some k -> k < 2 ^ 64 -> k <= e_idx ρ -> e_idx ρ < 2 ^ 64 ->
+  eval c ρ (gen_getter S f) = Panic /\ eval c ρ (gen_setter S f) = Panic.
+Proof. exact gen_oob_panics. Qed.
+
+Theorem C04_distinct_bits_fit_the_base : forall rs W, NoDupBits rs -> max_end rs <= W -> total rs <= W.
+Proof. exact total_le_base. Qed.
+
+Theorem C06_generator_model_raw_value : forall c W raw,
+  base_ok W = true -> raw < 2 ^ W ->
+  eval c (mk_env W raw 0 (VBool false)) (gen_raw_value (storage W) W) = Ok (VInt (base_ty W) raw).
+Proof. exact gen_raw_value_correct. Qed.
+
+Theorem C06_generator_model_new_with_raw_value : forall c W r raw,
+  base_ok W = true -> r < 2 ^ W ->
+  eval c (mk_env W raw 0 (VInt (base_ty W) r)) (gen_new_with_raw_value (storage W) W)
+  = Ok (VInt (TU (storage W)) r).
+Proof. exact gen_new_with_raw_value_correct. Qed.
+
+(** C11/C12/C16: any finite history on the model's bodies *)
+Theorem C12_generator_model_any_history : forall c d ops raw,
+  valid_decl d = true -> Forall (fun f => count f < 2 ^ 64) (d_fields d) ->
+  Forall (hop_ok d) ops -> raw < 2 ^ d_W d ->
+  model_run c d raw ops = Ok (run (map hop_wop ops) raw) /\ run (map hop_wop ops) raw < 2 ^ d_W d.
+Proof. exact model_history. Qed.
